@@ -20,7 +20,8 @@ from mc.oracle.fsa_model import M
 
 TARGET = ["a", "b", "c"]
 ROUTE_CLASS = {"graph": "dict-built", "hidden": "dict-built", "out": "dict-built",
-               "edits": "edit-built", "builtin": "dict-built"}
+               "edits": "edit-built", "builtin": "dict-built",
+               "redirect1": "edit-built", "redirect2": "edit-built"}
 REJ = "<rejected>"
 
 
@@ -41,6 +42,18 @@ def build(m, route, start):
     if route == "edits":
         f = fsa.FSA({})
         f.add_vertices(sorted(m.V, key=repr))
+        f.add_edges(sorted(m.E, key=repr))
+        f.start_vertices = [start]
+        return f
+    if route in ("redirect1", "redirect2"):
+        # built by edits, with every edge first pointing somewhere else: add_edges is called with the edges
+        # (u, v + j mod k, l), then with the edges (u, v, l) of the automaton - each label leaving u is re-used
+        # towards a new head, which replaces the earlier edge (at most one edge per (vertex, label))
+        j = int(route[-1])
+        V = sorted(m.V, key=repr)
+        f = fsa.FSA({})
+        f.add_vertices(V)
+        f.add_edges([(u, V[(V.index(v) + j) % len(V)], l) for (u, v, l) in sorted(m.E, key=repr)])
         f.add_edges(sorted(m.E, key=repr))
         f.start_vertices = [start]
         return f
@@ -540,6 +553,72 @@ def case_ops(case):
             break
     return {"v": v, "t": stats["t"], "o": "%d/%d/%d" % (stats["enum"], stats["rec"], stats["rlp"]),
             "nt": len(m.E) > 0}
+
+
+def case_prune(case):
+    """The two pruning operations (recurrent from every start vertex, remove_long_paths from every root) and the
+    walks on the automaton itself, for the larger label sets."""
+    m = M(range(case["k"]), case["E"])
+    labels, route = case["labels"], case["route"]
+    cls = ROUTE_CLASS[route]
+    V = sorted(m.V)
+    stats = {"t": 0, "enum": 0, "rec": 0, "rlp": 0, "acc": 0}
+    v = []
+    adj = O.adjacency(m)
+    words = list(O.all_words(labels, 2))
+    for i, s in enumerate(V):
+        f = build(m, route, s)
+        snap = snapshot(f)
+        v = same_edges(f, m.E, "build/edges/" + cls, "automaton built by route %s" % route, V=m.V)
+        if not v:
+            v = check_rlp(f, m, s, ([None] + V) if i == 0 else [None], cls, snap, stats)
+        if not v:
+            v = check_recurrent(f, m, route, s, cls, snap, stats, labels=labels, first=(i == 0))
+        if not v:
+            # the recurrent version as an automaton: its words from every surviving vertex
+            mr = m.recurrent()
+            g = f.recurrent()
+            adjr = O.adjacency(mr)
+            for u in sorted(mr.V):
+                exp = sorted(((join(w), e) for (w, e) in O.language(mr, 2, u)), key=repr)
+                got = sorted(g.enumerate_words(2, start_vertex=u, with_states=True), key=repr)
+                stats["t"] += 1
+                if got != exp:
+                    v.append({"key": "recurrent/copy/language-by-enumerate_words",
+                              "msg": "recurrent() of %r from %r: %r, expected %r" % (m.key(), u, got, exp)})
+                    break
+                for w in words:
+                    a = g.accepts(join(w), start_vertex=u)
+                    stats["t"] += 1
+                    if a is not (O.walk_adj(adjr, w, u) is not None):
+                        v.append({"key": "recurrent/copy/accepts",
+                                  "msg": "recurrent() of %r: accepts(%r, start_vertex=%r) = %r" % (m.key(), join(w), u, a)})
+                        break
+                if v:
+                    break
+        if not v and i == 0:
+            v = check_walks(f, m, adj, s, V[-1], words, 2, cls, stats, labels=labels)
+        if v:
+            break
+    return {"v": v, "t": stats["t"], "o": "%d/%d" % (stats["rec"], stats["rlp"]), "nt": len(m.E) > 0}
+
+
+def prune_cases(routes):
+    """Automata over three labels: all with 2 states, and those with 3 states whose last vertex has no outgoing
+    edge (a dead end which the other two may reach by one, two or three parallel edges)."""
+    labels = ["a", "b", "c"]
+    for m in O.all_deterministic(2, labels):
+        for route in routes:
+            yield {"k": 2, "labels": labels, "E": [list(e) for e in sorted(m.E)], "route": route}
+    for m in _dead_end_automata(labels):
+        for route in routes:
+            yield {"k": 3, "labels": labels, "E": [list(e) for e in sorted(m.E)], "route": route}
+
+
+def _dead_end_automata(labels):
+    slots = [(u, l) for u in (0, 1) for l in labels]
+    for img in itertools.product([None, 0, 1, 2], repeat=len(slots)):
+        yield M(range(3), [(u, t, l) for (u, l), t in zip(slots, img) if t is not None])
 
 
 # ------------------------------------------------------------------------------------------
@@ -1086,6 +1165,27 @@ def run(ctx):
                  "edge_ties": [True, False]})
     ctx.product("operations", "checks.c10:case_ops", automaton_cases(sizes, routes, Lo, all_starts=not q),
                 domains=dom2, chunk=16)
+    # automata that were EDITED before the operations: every edge was first added with another head (shifted by 1, by 2)
+    # and then redirected by a second add_edges call
+    rsizes = [(k, l) for (k, l) in sizes if k >= 2]
+    dom3 = dict(dom2)
+    dom3.update({"(states, labels)": [[k, len(l)] for k, l in rsizes],
+                 "routes": "add_edges with every head shifted by 1 mod k, then add_edges with the true edges"})
+    ctx.product("operations-on-redirected-edges", "checks.c10:case_ops",
+                automaton_cases(rsizes, ["redirect1"], Lo, all_starts=not q), domains=dom3, chunk=16)
+    r2sizes = [(k, l) for (k, l) in sizes if k >= 3]
+    ctx.product("pruning-redirected-by-2", "checks.c10:case_prune",
+                [{"k": c["k"], "labels": c["labels"], "E": c["E"], "route": c["route"]} for c in automaton_cases(r2sizes, ["redirect2"], 0)],
+                domains={"(states, labels)": [[k, len(l)] for k, l in r2sizes],
+                         "routes": "add_edges with every head shifted by 2 mod k, then add_edges with the true edges",
+                         "checked": "as in pruning-3-labels"}, chunk=64)
+    proutes = ["graph", "edits", "redirect1"]
+    ctx.product("pruning-3-labels", "checks.c10:case_prune", prune_cases(proutes),
+                domains={"automata": "all deterministic automata with 2 states over {a,b,c} (729); all with 3 states over {a,b,c} whose "
+                                     "vertex 2 has no outgoing edge (4096: parallel edges into a dead end from surviving vertices)",
+                         "routes": proutes, "start vertex": "every vertex", "roots": "every vertex and the default", "edge_ties": [True, False],
+                         "checked": "built automaton, remove_long_paths, recurrent (edges, vertices, start vertices, words and accepts of the "
+                                    "result from every surviving vertex, words <= 2), walks on the automaton (words <= 2)"}, chunk=64)
     from geometry_tools.automata import fsa
     names = sorted(n for n in fsa.list_builtins() if not n.startswith("__"))
     cap, lmax = (1500, 4) if q else (40000, 8)
